@@ -29,13 +29,13 @@ CHECKS = {
    note="Sampled inputs (no coverage feedback); tproxy/redirect and kernel faults not driven; a crash in any goroutine ends the child and is attributed through the case log.",
    tech="runtime monitoring: hostile-input workloads under checkptr build with crash/hang oracle"),
  "C08": dict(cat="exploration",
-   text="Real cred.Manager over the CredStores of a real SS2022 TCP and UDP server: sequential histories (add/update/delete incl. duplicate keys and same-key updates, reloads of operator-edited / restored / corrupt files, debounced saves on a virtual clock) and concurrent operations; after every step the API listing, real TCP+UDP handshakes for every key of the universe and the store file are compared; concurrent API histories are checked with porcupine against a user-map model.",
+   text="Real cred.Manager over the CredStores of a real SS2022 TCP and UDP server: sequential histories (add/update/delete incl. duplicate keys and same-key updates, reloads of operator-edited / restored / corrupt files, debounced saves on a virtual clock) and concurrent operations; after every step the API listing, real TCP+UDP handshakes for every key of the universe and the store file are compared; concurrent API histories are checked with porcupine against a user-map model; a hook-directed part holds the saver at its verif hook points while further operations land inside the save window, then compares file, listing and handshakes.",
    note="Small universe (4 names x 4 keys); the sequential/concurrent parts call the manager's public methods, the api part goes through the real REST API over loopback; SIGUSR1 delivery is not driven (it calls the same ReloadAll).",
    tech="runtime monitoring: three-view consistency oracle + reference map model + porcupine + race detector (synctest virtual clock)"),
  "C14": dict(cat="exploration",
-   text="Concurrent Collect* calls for many users (anonymous, named, first seen mid-run) racing with Snapshot/SnapshotAndReset under the race detector, with a conservation / total==anonymous+users / monotonicity oracle over all snapshots; real management API server over the collector compared per server and per user with the collector's own figures.",
-   note="Sampled schedules (distinct outcome vectors counted); integration with socket-level traffic is left to C11/C13.",
-   tech="runtime monitoring: conservation oracle over recorded snapshot histories + API projection comparison (race detector)"),
+   text="Concurrent Collect* calls for many users (anonymous, named, first seen mid-run) racing with Snapshot/SnapshotAndReset under the race detector, with a conservation / total==anonymous+users / monotonicity oracle over all snapshots; real management API server over the collector compared per server and per user with the collector's own figures; live part: a running service (multi-user SS2022 server + userless server) carries concurrent TCP sessions (clean close / RST after acknowledged traffic) and UDP sessions (ended by NAT timeout on the fake clock) of three users and anonymous clients while stats?clear=true snapshots are taken; cleared snapshots + last answer must equal the byte and datagram counts of the harness's own sockets per server and per user.",
+   note="Sampled schedules (distinct outcome vectors counted); the live part counts on closed-loop loopback delivery.",
+   tech="runtime monitoring: conservation oracle over recorded snapshot histories + API projection comparison (race detector) + socket-level conservation on a running service (faketime)"),
  "C20": dict(cat="fault_enumeration",
    text="Child processes run the real credential manager and are cut off by RLIMIT_FSIZE=k (write error EFBIG, or death by SIGXFSZ) for EVERY k in 0..len(document)+1 of the save, for several store sizes and operations; the parent reloads the file with a fresh manager (must be the old or the new set; after a failed save memory keeps the new set and a later save repairs the file). Shutdown phases of the save debounce (queued, picked up, cooling down, at hook points before/after the save with late changes) are walked on a virtual clock: after Stop the file holds the acknowledged set.",
    note="Crash = process death / write error; kernel page-cache loss (power failure) is not modelled. Hook-directed phases need the verif build tag.",
@@ -53,7 +53,7 @@ CHECKS = {
    note="Ports are exhaustive per set; domain/prefix inputs sampled.",
    tech="runtime monitoring: cross-representation agreement with a naive reference matcher"),
  "C11": dict(cat="exploration",
-   text="The real service manager on loopback sockets for every (server protocol x client protocol incl. direct) pair and both batch modes: concurrent sessions send tagged datagrams to IP and domain targets (scripted resolver incl. a failing resolution), SS2022 client address change, unparsable garbage interleaved; observed at target and client sockets: no misdelivery / duplication / corruption, replies only to the owner with the true source, garbage starts nothing; plus a race-detector stress part.",
+   text="The real service manager on loopback sockets for every (server protocol x client protocol incl. direct) pair and both batch modes: concurrent sessions send tagged datagrams to IP and domain targets (scripted resolver incl. a failing resolution), SS2022 client address change, unparsable garbage interleaved; observed at target and client sockets: no misdelivery / duplication / corruption, replies only to the owner with the true source, garbage starts nothing; a harness-played upstream interleaves valid replies with datagrams the relay must discard (stranger source, unparsable) inside the same receive batches; a client that moves from IPv4 to IPv6 mid-session; plus a race-detector stress part.",
    note="Closed-loop delivery on loopback assumed loss-free; virtual clock frozen while traffic flows (GC disabled in ft children).",
    tech="runtime monitoring: exactly-once / right-destination oracle over tagged datagrams on real sockets (faketime + race detector)"),
  "C15": dict(cat="exploration",
@@ -61,16 +61,16 @@ CHECKS = {
    note="Concurrent writers combined with starving readers are not explored (mutex waiters are not durably blocked for synctest).",
    tech="runtime monitoring: history checker over recorded call/return events on a virtual clock (race detector)"),
  "C16": dict(cat="exploration",
-   text="Scripted raw-byte client <-> real httpproxy server and its non-CONNECT forwarder <-> scripted origin, in memory on a virtual clock: pipelined request sequences with header casing/repetition, Connection nominations, Upgrade, proxy credentials, Content-Length and chunked bodies with trailers, interim 1xx, bodiless and close-delimited responses, redirects with/without Location, host changes, later CONNECT, early closes, Basic-auth retries; an own strict HTTP/1.1 parser compares messages semantically minus hop-by-hop fields.",
+   text="Scripted raw-byte client <-> real httpproxy server and its non-CONNECT forwarder <-> scripted origin, in memory on a virtual clock: pipelined request sequences with header casing/repetition, Connection nominations, Upgrade, proxy credentials, Content-Length and chunked bodies with trailers, interim 1xx, bodiless and close-delimited responses, redirects with/without Location, host changes, later CONNECT, early closes, Basic-auth retries; an own strict HTTP/1.1 parser compares messages semantically minus hop-by-hop fields; a third of the cases reach the origin the way the service does (netio.BidirectionalCopy between the proxy's pipe end and a transport whose Write consumes the caller's slice late).",
    note="Four genuine deviations are open known findings (F19-F22); a request pipelined behind the client's own Connection: close is a documented don't-care.",
    tech="runtime monitoring: semantic message-equality oracle over captured origin/client byte streams (plain + race detector)"),
  "C12": dict(cat="fault_enumeration",
-   text="Lifecycle schedules of the real UDP relays (NAT and session relay, recvmmsg and generic paths) on a virtual clock: idle eviction at natTimeout-/+eps with restart, Stop when idle / established / with bursts in flight / right after timeouts / while initialisation is held in name resolution / with a goroutine held at the re-arm or state-swap hook, failing initialisation (router reject, upstream refused); after Run returns the process is audited: goroutines and sockets back to baseline, listener port reusable, virtual time consumed by Stop < natTimeout/2.",
-   note="Multi-user SS2022 servers excluded (signal.Notify makes the fake clock unadvanceable); kernel fault injection (EMFILE, ICMP) not in this tier; leak audit by process-wide goroutine/socket counts.",
+   text="Lifecycle schedules of the real UDP relays (NAT and session relay, recvmmsg and generic paths) on a virtual clock: idle eviction at natTimeout-/+eps with restart, Stop when idle / established / with bursts in flight / right after timeouts / while initialisation is held in name resolution / with a goroutine held at the re-arm or state-swap hook, failing initialisation (router reject, upstream refused), eviction of a session whose client address has become unsendable; after Run returns the process is audited: goroutines and sockets back to baseline, listener port reusable, virtual time consumed by Stop < natTimeout/2.",
+   note="Multi-user SS2022 servers run with the SIGUSR1 reload registration left out through a verif hook (os/signal would make the fake clock unadvanceable); kernel fault injection (EMFILE, ICMP) not in this tier; leak audit by process-wide goroutine/socket counts.",
    tech="runtime monitoring: lifecycle-phase enumeration with hook-directed schedules on the runtime's fake clock + leak/virtual-time audit"),
  "C13": dict(cat="exploration",
    text="The real service manager over real loopback TCP for server x client protocol pairs incl. chained proxies and a dead upstream: initial payload sizes around 1440 handed to the dial, first data at virtual t in {0, 249 ms, 251 ms, never} around the 250 ms wait, further writes, target behaviours (echo, banner after EOF, speak first, half-close first, sink, answer then RST), wait disabled or not, IP/domain targets, dial failures (refused, router reject, resolver failure); oracle: exactly one onward connection to the requested target, both byte streams exact, half-closes mirrored while the other direction keeps flowing, failure reported by the protocol's reply unless success had to be signalled first (then a clean close without stray bytes), API statistics equal to the bytes seen at the sockets.",
-   note="Multi-user SS2022 only in the race part (real clock, 30 ms wait); exact SOCKS5 failure codes judged for a direct upstream only.",
+   note="Exact SOCKS5 failure codes judged for a direct upstream only.",
    tech="runtime monitoring: stream-equality / half-close / reply oracle on real TCP sockets (faketime + race detector) with conservation check against the statistics API"),
  "C18": dict(cat="exploration",
    text="JSON documents = a valid template with every server/client family, client group, resolver and routed sets, plus one labelled mutation (or several compatible ones) per documented invariant (key lengths incl. iPSKs and store entries, SS2022 NAT timeout vs replay window incl. legacy field, MTU 1279/1280, batch sizes, channel capacity, unknown protocol/mode/policy/field, dangling and duplicate names, tunnel address forms); loaded by the real Config.Manager after strict decoding and compared with a reference validator; accepted documents (incl. legacy single-listener forms) are started and driven with a UDP and a TCP exchange through each kind of server; omitted / empty / explicit-default forms of the policy fields must select the same function.",
